@@ -182,9 +182,12 @@ func isFloatish(t types.Type) bool {
 	return false
 }
 
+var shortKinds = map[string]string{"(IK true 64)": "i64", "(IK true 32)": "i32", "(IK true 16)": "i16", "(IK true 8)": "i8",
+	"(IK false 64)": "u64", "(IK false 32)": "u32", "(IK false 16)": "u16", "(IK false 8)": "u8"}
+
 func okind(t types.Type) string {
 	if k, ok := intKind(t); ok {
-		return "(KInt " + k + ")"
+		return shortKinds[k]
 	}
 	if b, ok := under(t).(*types.Basic); ok {
 		if b.Info()&types.IsBoolean != 0 {
@@ -239,9 +242,9 @@ func (s *Ser) zero(t types.Type) string {
 		}
 		panic(unsupported{"zero:" + u.String()})
 	case *types.Pointer:
-		return "(VPtr None)"
+		return "vnil"
 	case *types.Slice:
-		return "(VSlice None 0 0 0)"
+		return "snil"
 	case *types.Map:
 		return "(VMap None)"
 	case *types.Signature:
@@ -259,11 +262,10 @@ func (s *Ser) zero(t types.Type) string {
 			panic(unsupported{"big array"})
 		}
 		z := s.zero(u.Elem())
-		fs := make([]string, u.Len())
-		for i := range fs {
-			fs[i] = z
+		if z == "(VInt 0)" {
+			return fmt.Sprintf("(zi %d)", u.Len())
 		}
-		return "(VAgg [" + strings.Join(fs, "; ") + "])"
+		return fmt.Sprintf("(za %d %s)", u.Len(), z)
 	case *types.Tuple:
 		var fs []string
 		for i := 0; i < u.Len(); i++ {
@@ -382,16 +384,27 @@ func (fs *fser) reg(v ir.Value) int {
 func (fs *fser) operand(v ir.Value) string {
 	switch v := v.(type) {
 	case *ir.Const:
-		return "(OConst " + fs.s.constant(v) + ")"
+		c := fs.s.constant(v)
+		switch {
+		case strings.HasPrefix(c, "(VInt "):
+			return "(ci " + c[6:]
+		case c == "(VBool true)":
+			return "ct"
+		case c == "(VBool false)":
+			return "cf"
+		case strings.HasPrefix(c, "(VStr "):
+			return "(cs " + c[6:]
+		}
+		return "(cv " + c + ")"
 	case *ir.Global:
 		obj, _ := v.Object().(*types.Var)
 		gi, ok := fs.s.tb.globalIdx[obj]
 		if !ok {
 			panic(unsupported{"global:" + v.Name()})
 		}
-		return fmt.Sprintf("(OGlobal %d)", gi+1)
+		return fmt.Sprintf("(gl %d)", gi+1)
 	case *ir.Function:
-		return fmt.Sprintf("(OFunc %d)", fs.s.addFunc(v))
+		return fmt.Sprintf("(fu %d)", fs.s.addFunc(v))
 	case *ir.Builtin:
 		panic(unsupported{"builtin as value:" + v.Name()})
 	case nil:
@@ -402,7 +415,7 @@ func (fs *fser) operand(v ir.Value) string {
 		// forward reference (phi edges, or a use textually before the definition): number now
 		r = fs.reg(v)
 	}
-	return fmt.Sprintf("(OReg %d)", r)
+	return fmt.Sprintf("(r %d)", r)
 }
 
 func (fs *fser) operands(vs ...ir.Value) string {
@@ -480,15 +493,17 @@ func unsuppCode(what string) int {
 
 func (fs *fser) unsupp(dst string, what string) string {
 	fs.s.Unsupp[what]++
-	return fmt.Sprintf("IOp %s (OpUnsupported %d) []", dst, unsuppCode(what))
+	return fmt.Sprintf("%s (OpUnsupported %d) []", dst, unsuppCode(what))
 }
 
 func (fs *fser) instr(ins ir.Instruction) (out string) {
 	s := fs.s
 	kind := strings.TrimPrefix(fmt.Sprintf("%T", ins), "*ir.")
-	dst := "None"
+	dst := "e"
+	dn := 0
 	if v, ok := ins.(ir.Value); ok {
-		dst = fmt.Sprintf("(Some %d%%positive)", fs.reg(v))
+		dn = fs.reg(v)
+		dst = fmt.Sprintf("o %d", dn)
 		if containsFloat(v.Type()) {
 			s.Kinds[kind]++
 			return fs.unsupp(dst, "float/complex/chan/typeparam")
@@ -504,8 +519,9 @@ func (fs *fser) instr(ins ir.Instruction) (out string) {
 		}
 	}()
 	op := func(opc string, vs ...ir.Value) string {
-		return fmt.Sprintf("IOp %s %s %s", dst, opc, fs.operands(vs...))
+		return fmt.Sprintf("%s %s %s", dst, opc, fs.operands(vs...))
 	}
+	_ = dn
 	switch ins := ins.(type) {
 	case *ir.Alloc:
 		if ins.Heap {
@@ -521,31 +537,32 @@ func (fs *fser) instr(ins ir.Instruction) (out string) {
 		if ins.Heap {
 			h = "true"
 		}
-		return op(fmt.Sprintf("(OpAlloc %s %s)", h, s.zero(ins.Type().Underlying().(*types.Pointer).Elem())))
+		return fmt.Sprintf("al %d %s %s", dn, h, s.zero(ins.Type().Underlying().(*types.Pointer).Elem()))
 	case *ir.Phi:
 		s.Kinds[kind]++
-		return fmt.Sprintf("IPhi %d %s", fs.reg(ins), fs.operands(ins.Edges...))
+		return fmt.Sprintf("ph %d %s", fs.reg(ins), fs.operands(ins.Edges...))
 	case *ir.Load:
 		if ins.Comment() == "split alloc" {
 			kind = "Load(split)"
 		}
 		s.Kinds[kind]++
-		return op("OpLoad", ins.X)
+		return fmt.Sprintf("ld %d %s", dn, fs.operand(ins.X))
 	case *ir.Store:
 		if ins.Comment() == "split alloc" {
 			kind = "Store(split)"
 		}
 		s.Kinds[kind]++
-		return op("OpStore", ins.Addr, ins.Val)
+		return fmt.Sprintf("st %s %s", fs.operand(ins.Addr), fs.operand(ins.Val))
 	case *ir.BlankStore, *ir.DebugRef:
+		// pseudo-instructions: "no dynamic effect" (ssa.go); counted, not serialised
 		s.Kinds[kind]++
-		return op("OpNop")
+		return ""
 	case *ir.BinOp:
 		s.Kinds[kind+":"+ins.Op.String()+":"+okindShort(ins.X.Type())]++
 		if isFloatish(ins.X.Type()) {
 			return fs.unsupp(dst, "float/complex/chan/typeparam")
 		}
-		return op(fmt.Sprintf("(OpBin %s %s %s)", binops[ins.Op], okind(ins.X.Type()), okind(ins.Y.Type())), ins.X, ins.Y)
+		return fmt.Sprintf("bin %d %s %s %s %s %s", dn, binops[ins.Op], okind(ins.X.Type()), okind(ins.Y.Type()), fs.operand(ins.X), fs.operand(ins.Y))
 	case *ir.UnOp:
 		s.Kinds[kind+":"+ins.Op.String()]++
 		var o string
@@ -559,14 +576,14 @@ func (fs *fser) instr(ins ir.Instruction) (out string) {
 		default:
 			panic(unsupported{"other unop " + ins.Op.String()})
 		}
-		return op(fmt.Sprintf("(OpUn %s %s)", o, okind(ins.X.Type())), ins.X)
+		return fmt.Sprintf("un %d %s %s %s", dn, o, okind(ins.X.Type()), fs.operand(ins.X))
 	case *ir.Convert:
 		f, t := ckind(ins.X.Type()), ckind(ins.Type())
 		s.Kinds[kind+":"+strings.Trim(strings.Fields(t)[0], "()")+"<-"+strings.Trim(strings.Fields(f)[0], "()")]++
 		if f == "COther" || t == "COther" {
 			panic(unsupported{"convert " + ins.Type().String() + "<-" + ins.X.Type().String()})
 		}
-		return op(fmt.Sprintf("(OpConvert %s %s)", f, t), ins.X)
+		return fmt.Sprintf("cnv %d %s %s %s", dn, f, t, fs.operand(ins.X))
 	case *ir.ChangeType:
 		s.Kinds[kind]++
 		return op("OpChangeType", ins.X)
@@ -619,24 +636,24 @@ func (fs *fser) instr(ins ir.Instruction) (out string) {
 		return op(fmt.Sprintf("(OpSlice %s %v %v %v)", sk, ins.Low != nil, ins.High != nil, ins.Max != nil), vs...)
 	case *ir.FieldAddr:
 		s.Kinds[kind]++
-		return op(fmt.Sprintf("(OpFieldAddr %d)", ins.Field), ins.X)
+		return fmt.Sprintf("fa %d %d %s", dn, ins.Field, fs.operand(ins.X))
 	case *ir.Field:
 		s.Kinds[kind]++
-		return op(fmt.Sprintf("(OpField %d)", ins.Field), ins.X)
+		return fmt.Sprintf("fd %d %d %s", dn, ins.Field, fs.operand(ins.X))
 	case *ir.IndexAddr:
 		sk := seqKind(ins.X.Type())
 		s.Kinds[kind+":"+strings.Trim(strings.Fields(sk)[0], "()")]++
-		return op(fmt.Sprintf("(OpIndexAddr %s)", sk), ins.X, ins.Index)
+		return fmt.Sprintf("ia %d %s %s %s", dn, sk, fs.operand(ins.X), fs.operand(ins.Index))
 	case *ir.Index:
 		sk := seqKind(ins.X.Type())
 		s.Kinds[kind+":"+strings.Trim(strings.Fields(sk)[0], "()")]++
-		return op(fmt.Sprintf("(OpIndex %s)", sk), ins.X, ins.Index)
+		return fmt.Sprintf("ix %d %s %s %s", dn, sk, fs.operand(ins.X), fs.operand(ins.Index))
 	case *ir.StringLookup:
 		s.Kinds[kind]++
 		return op("OpStringLookup", ins.X, ins.Index)
 	case *ir.Extract:
 		s.Kinds[kind]++
-		return op(fmt.Sprintf("(OpExtract %d)", ins.Index), ins.Tuple)
+		return fmt.Sprintf("ex %d %d %s", dn, ins.Index, fs.operand(ins.Tuple))
 	case *ir.CompositeValue:
 		s.Kinds[kind]++
 		n := 0
@@ -684,10 +701,10 @@ func (fs *fser) instr(ins ir.Instruction) (out string) {
 		return "IRunDefers"
 	case *ir.Jump:
 		s.Kinds[kind]++
-		return "IJump"
+		return "jp"
 	case *ir.If:
 		s.Kinds[kind]++
-		return "IIf " + fs.operand(ins.Cond)
+		return "br " + fs.operand(ins.Cond)
 	case *ir.ConstantSwitch:
 		s.Kinds[kind]++
 		var cs []string
@@ -704,7 +721,7 @@ func (fs *fser) instr(ins ir.Instruction) (out string) {
 		return fmt.Sprintf("ISwitch %s [%s]", fs.operand(ins.Tag), strings.Join(cs, "; "))
 	case *ir.Return:
 		s.Kinds[kind]++
-		return "IReturn " + fs.operands(ins.Results...)
+		return "rt " + fs.operands(ins.Results...)
 	case *ir.Panic:
 		s.Kinds[kind]++
 		return "IPanic " + fs.operand(ins.X)
@@ -737,7 +754,7 @@ func (fs *fser) instr(ins ir.Instruction) (out string) {
 func okindShort(t types.Type) string {
 	k := okind(t)
 	switch {
-	case strings.HasPrefix(k, "(KInt"):
+	case len(k) >= 2 && (k[0] == 'i' || k[0] == 'u') && k[1] >= '0' && k[1] <= '9':
 		return "int"
 	case k == "KBool":
 		return "bool"
@@ -775,7 +792,13 @@ func (fs *fser) call(dst string, c *ir.CallCommon, isDefer bool, deferStack ir.V
 			}
 			return fmt.Sprintf("IDefer %s %s %s", mode, ds, fs.operands(vs...))
 		}
-		return fmt.Sprintf("ICall %s %s %s", dst, mode, fs.operands(vs...))
+		if strings.HasPrefix(mode, "(CStatic ") {
+			return fmt.Sprintf("cl %s %s %s", dst[2:], strings.TrimSuffix(mode[9:], ")"), fs.operands(vs...))
+		}
+		if mode == "CValue" {
+			return fmt.Sprintf("cvl %s %s", dst[2:], fs.operands(vs...))
+		}
+		return fmt.Sprintf("ICall (Some %s%%positive) %s %s", dst[2:], mode, fs.operands(vs...))
 	}
 	if c.IsInvoke() {
 		s.Kinds[kind+":invoke"]++
@@ -811,7 +834,7 @@ func (fs *fser) call(dst string, c *ir.CallCommon, isDefer bool, deferStack ir.V
 				}
 			}
 			if len(c.Args) == 1 {
-				return fmt.Sprintf("IOp %s OpChangeType %s", dst, fs.operands(c.Args[0]))
+				return fmt.Sprintf("%s OpChangeType %s", dst, fs.operands(c.Args[0]))
 			}
 			b = fmt.Sprintf("(BAppend %s %v)", s.zero(el), fromstr)
 		case "copy":
@@ -837,7 +860,7 @@ func (fs *fser) call(dst string, c *ir.CallCommon, isDefer bool, deferStack ir.V
 		default:
 			panic(unsupported{"builtin " + name})
 		}
-		return fmt.Sprintf("IOp %s (OpBuiltin %s) %s", dst, b, fs.operands(c.Args...))
+		return fmt.Sprintf("bi %s %s %s", dst[2:], b, fs.operands(c.Args...))
 	case *ir.Function:
 		if fn.Signature.Recv() != nil {
 			s.Kinds[kind+":static-method"]++
@@ -913,9 +936,11 @@ func (s *Ser) function(f *ir.Function) string {
 		}
 		var code []string
 		for _, ins := range b.Instrs {
-			code = append(code, fs.instr(ins))
+			if c := fs.instr(ins); c != "" {
+				code = append(code, c)
+			}
 		}
-		blocks = append(blocks, fmt.Sprintf("   mkBlock %s %s [\n      %s]", nlist(preds), nlist(succs), strings.Join(code, ";\n      ")))
+		blocks = append(blocks, fmt.Sprintf("   blk %s %s [\n      %s]", nlist(preds), nlist(succs), strings.Join(code, ";\n      ")))
 	}
 	rec := "None"
 	if f.Recover != nil {
@@ -926,10 +951,19 @@ func (s *Ser) function(f *ir.Function) string {
 }
 
 // Program serialises all discovered functions (discovery continues while serialising: wrappers etc.).
-func (s *Ser) Program(name string) string {
+func (s *Ser) Program(name, pfx string, shared map[string]string, defs *strings.Builder) string {
 	var fstr []string
 	for i := 0; i < len(s.funcs); i++ {
-		fstr = append(fstr, s.function(s.funcs[i]))
+		text := s.function(s.funcs[i])
+		// functions with identical text (across forms) are defined once
+		key := text[strings.Index(text, "*)")+2:]
+		nm, ok := shared[key]
+		if !ok {
+			nm = fmt.Sprintf("%sfn_%d", pfx, len(shared))
+			shared[key] = nm
+			fmt.Fprintf(defs, "Definition %s : func :=\n%s.\n", nm, text)
+		}
+		fstr = append(fstr, nm)
 	}
 	var meths []string
 	for _, t := range s.concrete {
@@ -947,5 +981,5 @@ func (s *Ser) Program(name string) string {
 			meths = append(meths, fmt.Sprintf("(%d, %d, %d)%%N", s.tb.typeID(t), s.tb.methodID(sel.Obj().(*types.Func)), fi))
 		}
 	}
-	return fmt.Sprintf("Definition %s : program := mkProgram [\n%s]\n  [%s].\n", name, strings.Join(fstr, ";\n"), strings.Join(meths, "; "))
+	return fmt.Sprintf("Definition %s : program := mkProgram [%s]\n  [%s].\n", name, strings.Join(fstr, "; "), strings.Join(meths, "; "))
 }
